@@ -1,6 +1,6 @@
 """Text for MANIFEST.json (kept next to props.py so that MANIFEST states what exists)."""
 
-HOOK_COMMITS = ["d18659f", "3e13ff0", "29045de", "c69ab95", "e8b7467", "0cebe19"]
+HOOK_COMMITS = ["d18659f", "3e13ff0", "29045de", "c69ab95", "e8b7467", "0cebe19", "02a8a12"]
 
 NOTES = ("Technique family: machine-checked proof in Lean 4. Every claimed property = theorems in lean/LalModel/Props/<id>.lean "
          "about executable models + a correspondence check that runs the real lal code (built from /repo's working tree) and the "
@@ -13,7 +13,4 @@ NOT_APPLICABLE = {f"C{i:02d}": NOT_BUILT for i in range(1, 21)}
 
 # properties whose check exists but is being brought back in line with /repo after other properties' fixes changed the
 # code it models; not claimed until `./check <id>` exits 0 again
-HOLD = {
-    "C03": "check built (10 theorems) but its admission model does not yet mirror the relay-pull cancellation guard added by a later fix (pullingSessionUk); being updated, not claimed at this commit",
-    "C13": "check built (14 theorems) but its PS-unpacker model and site inventory do not yet mirror three later gb28181 fixes; being updated, not claimed at this commit",
-}
+HOLD = {}
